@@ -10,7 +10,8 @@ from .pyast import Unrecognised, clean, cstr, unparse
 
 class Ctx:
     def __init__(self, attr_vars=(), enum_prefixes=(), identity_calls=(), attr_targets=(), prims=None,
-                 objects=False, consts=None, tables=(), procs=None, record_classes=(), str_consts=None, skip_stmts=()):
+                 objects=False, consts=None, tables=(), procs=None, record_classes=(), str_consts=None, skip_stmts=(),
+                 refs=None, ref_procs=None, record_ctors=None, message_vars=(), unmodelled=None, while_fuel=None):
         self.attr_vars = set(attr_vars) | set(attr_targets)  # source texts treated as variables, e.g. "self.prefix"
         self.attr_targets = set(attr_targets)    # attributes the method may assign / append to, e.g. "self.negative_option_strings"
         self.enum_prefixes = tuple(enum_prefixes)  # "DashVariant." ... : enum members become string constants
@@ -24,6 +25,16 @@ class Ctx:
         self.record_classes = set(record_classes)
         self.str_consts = dict(str_consts or {})  # module-level string constants by name, e.g. DC_TYPE_KEY -> "_type_" (checked by the caller)
         self.skip_stmts = set(skip_stmts)         # exact source texts of statements the caller declares to be no-ops of the model
+        # ---- sixth group: references into ONE store (aliasing made explicit), while, defaultdict(list)
+        self.refs = refs                          # (store variable, {names that hold a reference = a key of the store}): x.attr reads
+                                                  # store[x].attr, x.attr = e updates the store; references themselves are plain values
+        self.ref_procs = dict(ref_procs or {})    # attribute of a referenced object computed by a dumped method: attr -> (body, ins, locals)
+        self.record_ctors = dict(record_ctors or {})   # class name -> field names: Cls(a, b) builds a new object
+        self.message_vars = set(message_vars)     # names that only carry exception / log messages: not modelled
+        self.unmodelled = dict(unmodelled or {})  # callee source -> error class: a statement calling it is `raise <that>` in the dump
+        self.while_fuel = while_fuel              # bound of every while loop (the caller reads it from the source)
+        self.defaultdicts = set()
+        self.setvars = set()
         self.views = {}                          # X -> Y after `X = vars(Y)`: X is the live dict view of the object Y (ONE variable)
         self.local_defs = {}
         self.assigned = []
@@ -179,8 +190,48 @@ def expr4(n, c: Ctx, subst, src):
         return None
     if src in c.consts:
         return f"(EConst {cstr(c.consts[src])})"
+    if c.refs is not None and isinstance(n, ast.Attribute) and isinstance(n.ctx, ast.Load) and isinstance(n.value, ast.Name) \
+            and n.value.id in c.refs[1] and n.value.id not in subst:
+        if n.attr in c.ref_procs:
+            raise Unrecognised(f"{src}: a computed attribute of a referenced object is read only as the iterable of a for loop")
+        return f"(EAttr (EGetItem (EVar {cstr(c.refs[0])}) (EVar {cstr(n.value.id)})) {cstr(n.attr)})"
+    if isinstance(n, ast.Compare) and len(n.ops) == 1 and isinstance(n.ops[0], (ast.GtE, ast.LtE, ast.Lt)):
+        a_, b_ = expr(n.left, c, subst), expr(n.comparators[0], c, subst)
+        if isinstance(n.ops[0], ast.Lt):
+            return f"(EGt {b_} {a_})"
+        return f"(ENot (EGt {b_} {a_}))" if isinstance(n.ops[0], ast.GtE) else f"(ENot (EGt {a_} {b_}))"
+    if isinstance(n, ast.Call) and not n.keywords and len(n.args) == 1:
+        f_ = unparse(n.func)
+        a0 = n.args[0]
+        if f_ == "any" and isinstance(a0, ast.GeneratorExp) and len(a0.generators) == 1:
+            g = a0.generators[0]
+            if isinstance(g.target, ast.Name) and not g.ifs and not g.is_async:
+                return f"(EAny {expr(a0.elt, c, subst)} {cstr(g.target.id)} {expr(g.iter, c, subst)})"
+        if f_ == "len" and isinstance(a0, ast.Call) and unparse(a0.func) == "set" and len(a0.args) == 1 and not a0.keywords:
+            return f"(ECountDistinct {expr(a0.args[0], c, subst)})"
+        if f_ == "list" and isinstance(a0, ast.Call) and unparse(a0.func) == "filter" and len(a0.args) == 2 and not a0.keywords \
+                and unparse(a0.args[0]) == "bool":
+            return f"(EComp (EVar \"<item>\") \"<item>\" {expr(a0.args[1], c, subst)} (Some (EVar \"<item>\")))"
+    if isinstance(n, ast.Call) and isinstance(n.func, ast.Name) and n.func.id in c.record_ctors and not n.keywords \
+            and len(n.args) == len(c.record_ctors[n.func.id]):
+        fs_ = "; ".join(f"({cstr(k)}, {expr(a, c, subst)})" for k, a in zip(c.record_ctors[n.func.id], n.args))
+        return f"(ERec {cstr(n.func.id)} [{fs_}])"
+    if isinstance(n, ast.Call) and unparse(n.func) == "sorted" and len(n.args) == 1 and n.keywords and n.keywords[0].arg == "key" \
+            and isinstance(n.keywords[0].value, ast.Lambda) and c.refs is not None:
+        lam = n.keywords[0].value
+        rev = n.keywords[1:]
+        if len(lam.args.args) == 1 and lam.args.args[0].arg in c.refs[1] and len(rev) <= 1 \
+                and all(k.arg == "reverse" and isinstance(k.value, ast.Constant) and isinstance(k.value.value, bool) for k in rev):
+            r_ = "true" if rev and rev[0].value.value else "false"
+            return f"(ESortKey {expr(n.args[0], c, subst)} {cstr(lam.args.args[0].arg)} {expr(lam.body, c, subst)} {r_})"
     if isinstance(n, ast.Name) and n.id in c.str_consts and n.id not in subst:
         return f"(EStr {cstr(c.str_consts[n.id])})"
+    if isinstance(n, ast.Compare) and len(n.ops) == 1 and isinstance(n.ops[0], (ast.In, ast.NotIn)) \
+            and isinstance(n.comparators[0], ast.Name) and n.comparators[0].id in c.setvars:
+        t_ = f"(EIn {expr(n.left, c, subst)} (EVar {cstr(n.comparators[0].id)}))"
+        return t_ if isinstance(n.ops[0], ast.In) else f"(ENot {t_})"
+    if isinstance(n, ast.Name) and n.id in c.setvars:
+        raise Unrecognised(f"the set {n.id} is used other than through .add and `in`")
     if isinstance(n, ast.Name) and n.id in c.views:
         raise Unrecognised(f"the view {n.id} = vars({c.views[n.id]}) is used as a value (only .pop, `in` and Namespace(**view) are read)")
     if isinstance(n, ast.Compare) and len(n.ops) == 1:
@@ -257,6 +308,19 @@ def expr4(n, c: Ctx, subst, src):
     return None
 
 
+def _pure_message(n):
+    """An expression that only builds text for an exception / a log line: names, attributes, literals, f-strings, +, str(),
+    sep.join(..) of a display or a generator, list displays.  It is not modelled; anything else fails closed."""
+    for m in ast.walk(n):
+        ok = isinstance(m, (ast.Name, ast.Attribute, ast.Constant, ast.JoinedStr, ast.FormattedValue, ast.BinOp, ast.Add, ast.Load, ast.Store,
+                            ast.List, ast.Tuple, ast.GeneratorExp, ast.comprehension, ast.Sub, ast.Mod))
+        if isinstance(m, ast.Call):
+            f_ = unparse(m.func)
+            ok = f_ in ("str", "repr", "len", "enumerate") or (isinstance(m.func, ast.Attribute) and m.func.attr == "join")
+        if not ok:
+            raise Unrecognised(f"message expression outside the admitted forms: {unparse(n)[:80]}")
+
+
 def _path_of(target, c: Ctx, subst):
     """x[k1].a[k2] ... as (root name, [(is_attr, key expr text)]); None when the target is not such a chain."""
     path = []
@@ -275,6 +339,8 @@ def _path_of(target, c: Ctx, subst):
     if isinstance(t, ast.Name) and (t.id in subst or t.id in c.views):
         raise Unrecognised(f"assignment through the substituted parameter / view {t.id}")
     root = t.id if isinstance(t, ast.Name) else unparse(t)
+    if c.refs is not None and root in c.refs[1]:          # x.attr = e through the reference x: an update of the store at key x
+        return c.refs[0], [f"(false, (EVar {cstr(root)}))"] + list(reversed(path))
     return root, list(reversed(path))
 
 
@@ -319,6 +385,73 @@ def stmt4(s, c: Ctx, subst):
         return [proc_call(s.value, c, subst, ret=s.targets[0].id)]
     if isinstance(s, ast.Return) and s.value is None:
         return ["SReturn ENone"]
+    # ---- sixth group
+    for callee, errcls in c.unmodelled.items():
+        if any(isinstance(m, ast.Call) and unparse(m.func) == callee for m in ast.walk(s)) and not isinstance(s, (ast.If, ast.For, ast.While)):
+            return [f"SRaise {cstr(errcls)}"]
+    if isinstance(s, (ast.Assign, ast.AnnAssign)) and getattr(s, "value", None) is not None:
+        tg = s.targets[0] if isinstance(s, ast.Assign) and len(s.targets) == 1 else getattr(s, "target", None)
+        if isinstance(tg, ast.Name) and tg.id in c.message_vars:
+            _pure_message(s.value)
+            return []
+        if isinstance(tg, ast.Name) and unparse(s.value) == "set()" and tg.id not in subst:
+            c.setvars.add(tg.id)                # a set used only through .add and `in`: the list of the added elements
+            c.note(tg.id)
+            return [f"SAssign {cstr(tg.id)} (EList [])"]
+        if isinstance(tg, ast.Name) and unparse(s.value) == "defaultdict(list)" and tg.id not in subst:
+            c.defaultdicts.add(tg.id)
+            c.note(tg.id)
+            return [f"SAssign {cstr(tg.id)} (EDict [])"]
+    if isinstance(s, ast.Expr) and isinstance(s.value, ast.Call) and isinstance(s.value.func, ast.Attribute) and not s.value.keywords \
+            and len(s.value.args) == 1:
+        f_ = s.value.func
+        if f_.attr == "append" and isinstance(f_.value, ast.Subscript) and isinstance(f_.value.value, ast.Name) \
+                and f_.value.value.id in c.defaultdicts and not isinstance(f_.value.slice, ast.Slice):
+            return [f"SDictAppend {cstr(f_.value.value.id)} {expr(f_.value.slice, c, subst)} {expr(s.value.args[0], c, subst)}"]
+        if f_.attr == "add" and isinstance(f_.value, ast.Name) and f_.value.id in c.setvars:
+            return [f"SAppend {cstr(f_.value.id)} {expr(s.value.args[0], c, subst)}"]
+        if f_.attr == "remove" and isinstance(f_.value, ast.Name) and f_.value.id not in subst:
+            return [f"SRemove {cstr(f_.value.id)} {expr(s.value.args[0], c, subst)}"]
+    if isinstance(s, ast.AugAssign) and isinstance(s.op, ast.Add) and isinstance(s.target, ast.Name) and s.target.id not in subst:
+        return [f"SAssign {cstr(s.target.id)} (EAdd (EVar {cstr(s.target.id)}) {expr(s.value, c, subst)})"]
+    if isinstance(s, ast.While) and not s.orelse:
+        if c.while_fuel is None:
+            raise Unrecognised("while loop without a declared bound")
+        return [f"SWhile {int(c.while_fuel)} {expr(s.test, c, subst)} [{'; '.join(block(s.body, c, subst))}]"]
+    if isinstance(s, ast.For) and not s.orelse and not clean(s.body):
+        _pure_message(s.iter)
+        return []                                            # a loop that only logs
+    if isinstance(s, ast.Raise) and s.cause is None and isinstance(s.exc, ast.Call) and isinstance(s.exc.func, (ast.Name, ast.Attribute)) \
+            and not s.exc.keywords and c.message_vars is not None and c.refs is not None:
+        for a in s.exc.args:
+            _pure_message(a)
+        cls_ = s.exc.func.id if isinstance(s.exc.func, ast.Name) else s.exc.func.attr
+        return [f"SRaise {cstr(cls_)}"]
+    # for v in x.<computed attribute>: the attribute is computed by a dumped method on the referenced object
+    if isinstance(s, ast.For) and not s.orelse and isinstance(s.target, ast.Name) and c.refs is not None and isinstance(s.iter, ast.Attribute) \
+            and isinstance(s.iter.value, ast.Name) and s.iter.value.id in c.refs[1] and s.iter.attr in c.ref_procs:
+        body_txt, ins_spec = c.ref_procs[s.iter.attr]
+        obj = f"(EGetItem (EVar {cstr(c.refs[0])}) (EVar {cstr(s.iter.value.id)}))"
+        ins = "; ".join(f"({cstr(v)}, {'ENone' if a is None else f'(EAttr {obj} {cstr(a)})'})" for v, a in ins_spec)
+        tmp = f"{s.iter.attr} of {s.iter.value.id}"
+        c.note(tmp)
+        c.note(s.target.id)
+        if _has_own(s.body, ast.Break) or _has_own(s.body, ast.Continue):
+            raise Unrecognised("break / continue in a loop over a computed attribute")
+        return [f"SCallRet {cstr(tmp)} {body_txt} [{ins}] []",
+                f"SFor {cstr(s.target.id)} (EVar {cstr(tmp)}) [{'; '.join(block(s.body, c, subst))}]"]
+    # t = self.m(..) / self.m(..) / assert not self.m(..) for a dumped method
+    def _is_proc(call):
+        return isinstance(call, ast.Call) and unparse(call.func) in c.procs and isinstance(call.func, ast.Attribute)
+    if isinstance(s, ast.Assign) and len(s.targets) == 1 and isinstance(s.targets[0], ast.Name) and _is_proc(s.value) and s.targets[0].id not in subst:
+        c.note(s.targets[0].id)
+        return [proc_call(s.value, c, subst, ret=s.targets[0].id)]
+    if isinstance(s, ast.Expr) and _is_proc(s.value):
+        return [proc_call(s.value, c, subst)]
+    if isinstance(s, ast.Assert) and isinstance(s.test, ast.UnaryOp) and isinstance(s.test.op, ast.Not) and _is_proc(s.test.operand):
+        tmp = "result of " + unparse(s.test.operand.func)
+        c.note(tmp)
+        return [proc_call(s.test.operand, c, subst, ret=tmp), f"SAssert (ENot (EVar {cstr(tmp)}))"]
     # X = vars(Y): X is the live view of Y - ONE variable
     if isinstance(s, ast.Assign) and len(s.targets) == 1 and isinstance(s.targets[0], ast.Name) and isinstance(s.value, ast.Call) \
             and unparse(s.value.func) == "vars" and len(s.value.args) == 1 and isinstance(s.value.args[0], ast.Name) and not s.value.keywords:
@@ -389,14 +522,14 @@ def stmt4(s, c: Ctx, subst):
 
 
 def proc_call(call, c: Ctx, subst, ret=None) -> str:
-    fn, cc, self_arg = c.procs[call.func.id]
+    fn, cc, self_arg = c.procs[unparse(call.func)]
     params = [a.arg for a in fn.args.posonlyargs + fn.args.args]
     if fn.args.vararg or fn.args.kwarg or fn.args.kwonlyargs:
         raise Unrecognised(f"procedure {fn.name}: only plain parameters")
     dflt = dict(zip(params[len(params) - len(fn.args.defaults):], fn.args.defaults))
     given = {}
     if self_arg is not None:
-        given[params[0]] = call.func
+        given[params[0]] = call.func.value if isinstance(call.func, ast.Attribute) else call.func
     free = [p for p in params if p not in given]
     if len(call.args) > len(free) or any(isinstance(a, ast.Starred) for a in call.args):
         raise Unrecognised(f"call of {fn.name}: positional arguments")
@@ -431,6 +564,12 @@ def proc_call(call, c: Ctx, subst, ret=None) -> str:
             outs.append((p, x))
     ins_txt = "; ".join(f"({cstr(p)}, {expr(a, c, subst)})" for p, a in ins)
     outs_txt = "; ".join(f"({cstr(p)}, {cstr(x)})" for p, x in outs)
+    if c.refs is not None and cc.refs is not None:           # the store of referenced objects goes in, and comes back when the callee updates it
+        if cc.refs[0] != c.refs[0]:
+            raise Unrecognised("caller and callee use different stores")
+        ins_txt = "; ".join([f"({cstr(c.refs[0])}, (EVar {cstr(c.refs[0])}))"] + ([ins_txt] if ins_txt else []))
+        if c.refs[0] in mutated:
+            outs_txt = "; ".join([f"({cstr(c.refs[0])}, {cstr(c.refs[0])})"] + ([outs_txt] if outs_txt else []))
     if ret is not None:
         return f"SCallRet {cstr(ret)} [{'; '.join(body)}] [{ins_txt}] [{outs_txt}]"
     return f"SCall [{'; '.join(body)}] [{ins_txt}] [{outs_txt}]"
@@ -589,6 +728,8 @@ def _store_root(t, c: Ctx):
         t = t.value
         depth += 1
     nm = _vname(t, c)
+    if depth and nm is not None and c.refs is not None and nm in c.refs[1]:
+        return (c.refs[0], depth + 1)             # through a reference: the store changes
     return (nm, depth) if depth and nm is not None else (None, 0)
 
 
@@ -612,9 +753,11 @@ def mutated_names(body, c: Ctx, views=None) -> dict:
                     add(nm, depth)
         if isinstance(n, ast.Call) and unparse(n.func) in ("setattr", "delattr") and n.args and _vname(n.args[0], c):
             add(_vname(n.args[0], c))
-        if isinstance(n, ast.Call) and isinstance(n.func, ast.Name) and n.func.id in c.procs:
-            fn, cc, self_arg = c.procs[n.func.id]
+        if isinstance(n, ast.Call) and unparse(n.func) in c.procs:
+            fn, cc, self_arg = c.procs[unparse(n.func)]
             inner = mutated_names(fn.body, cc)
+            if c.refs is not None and cc.refs is not None and cc.refs[0] in inner:
+                add(c.refs[0], inner[cc.refs[0]])
             for kw in n.keywords:
                 if kw.arg in inner and _vname(kw.value, c):
                     add(_vname(kw.value, c), inner[kw.arg])
@@ -700,6 +843,10 @@ def alias_check(body, c: Ctx, extra=()) -> None:
             for leaf in ast.walk(t):
                 nm = _vname(leaf, c) if isinstance(leaf, (ast.Name, ast.Attribute)) else None
                 if nm in mutated:
+                    if isinstance(n, ast.For) and not any(
+                            isinstance(m, ast.Call) and isinstance(m.func, ast.Attribute) and m.func.attr in _MUTATORS
+                            and _vname(m.func.value, c) == nm and getattr(m, "lineno", 0) >= n.lineno for m in ast.walk(root)):
+                        continue                  # the name is re-used as a loop variable after its last mutation
                     bad(nm, "is bound by unpacking / as a loop or comprehension variable")
         if isinstance(n, ast.FunctionDef):
             for a in n.args.args:
@@ -730,7 +877,7 @@ def alias_check(body, c: Ctx, extra=()) -> None:
         if isinstance(p, ast.Call):
             f = unparse(p.func)
             if node in p.args:
-                if f in _CONSUMING_CALLS or f in c.prims or (isinstance(p.func, ast.Name) and p.func.id in c.procs):
+                if f in _CONSUMING_CALLS or f in c.prims or f in c.procs or f in ("set", "filter", "enumerate") or f in c.record_ctors:
                     return True
                 if isinstance(p.func, ast.Attribute) and p.func.attr in ("extend", "join"):
                     return True
